@@ -1,7 +1,248 @@
+/-
+  Property C13 — IF / IFS / IFERROR choose the right branch and contain errors.
+
+  `evalPy errs env (translateX e)` is what the generated class computes for the formula `e` (model of the three
+  translators + `_ifs` / `_iferror` / `_find_error_in_list`, tied to the code by the correspondence check);
+  `evalX env e` is what the property demands (lazy, first-true, error-containing).  The list of error values the
+  runtime scans is *extracted from the working tree* (Generated.RuntimeConsts), so the theorems below are re-checked
+  against what the code says now.
+-/
 import E2P.Model.Branch
 import E2P.Spec.BranchSpec
 import E2P.Generated.RuntimeConsts
 namespace E2P.C13
 open E2P
-theorem placeholder : True := trivial
+
+/-- the error list of the rendered class template, as code points -/
+def errsTemplate : List (List Char) := E2P.Generated.errorValuesTemplate.map String.toList
+/-- the error list of the importable abstract class -/
+def errsAbstract : List (List Char) := E2P.Generated.errorValuesAbstract.map String.toList
+
+/-- Every one of the seven Excel error values is in the list the generated runtime scans, and nothing else is. -/
+theorem excel_errors_covered_template :
+    (∀ e ∈ excelErrors, e ∈ errsTemplate) ∧ (∀ e ∈ errsTemplate, e ∈ excelErrors) := by
+  decide
+
+theorem excel_errors_covered_abstract :
+    (∀ e ∈ excelErrors, e ∈ errsAbstract) ∧ (∀ e ∈ errsAbstract, e ∈ excelErrors) := by
+  decide
+
+theorem isErrVal_congr (errs : List (List Char))
+    (h : (∀ e ∈ excelErrors, e ∈ errs) ∧ (∀ e ∈ errs, e ∈ excelErrors)) (v : Val) :
+    isErrVal errs v = isErrVal excelErrors v := by
+  cases v <;> simp [isErrVal]
+  rename_i s
+  by_cases hs : s ∈ errs
+  · simp [hs, h.2 s hs]
+  · have : s ∉ excelErrors := fun h' => hs (h.1 s h')
+    simp [hs, this]
+
+section
+variable (errs : List (List Char)) (env : Nat → Res)
+variable (herr : ∀ v, isErrVal errs v = isErrVal excelErrors v)
+include herr
+
+/-- Main theorem: for every formula of the fragment (any nesting depth, any position), the emitted Python
+    expression evaluates to the value the property demands — provided the runtime's error list is the Excel one. -/
+theorem translate_correct_aux : ∀ e : XExpr, wellFormed e = true →
+    evalPy errs env (translateX e) = evalX env e ∧
+    evalIfs errs env (translateX.ifsTail e) = (match e with | .ifsCons .. => evalX env e | _ => .ok errNA)
+  | .lit v, _ => by simp [translateX, translateX.ifsTail, evalPy, evalIfs, evalX]
+  | .ref i, _ => by simp [translateX, translateX.ifsTail, evalPy, evalIfs, evalX]
+  | .div a b, hw => by
+      simp only [wellFormed, Bool.and_eq_true] at hw
+      have ha := (translate_correct_aux a hw.1.1.1).1; have hb := (translate_correct_aux b hw.1.1.2).1
+      simp only [translateX, translateX.ifsTail, evalPy, evalIfs, evalX, ha, hb, strict2, opDiv, and_true]
+      cases evalX env a <;> cases evalX env b <;> rfl
+  | .add a b, hw => by
+      simp only [wellFormed, Bool.and_eq_true] at hw
+      have ha := (translate_correct_aux a hw.1.1.1).1; have hb := (translate_correct_aux b hw.1.1.2).1
+      simp only [translateX, translateX.ifsTail, evalPy, evalIfs, evalX, ha, hb, strict2, opAdd, and_true]
+      cases evalX env a <;> cases evalX env b <;> rfl
+  | .mul a b, hw => by
+      simp only [wellFormed, Bool.and_eq_true] at hw
+      have ha := (translate_correct_aux a hw.1.1.1).1; have hb := (translate_correct_aux b hw.1.1.2).1
+      simp only [translateX, translateX.ifsTail, evalPy, evalIfs, evalX, ha, hb, strict2, opMul, and_true]
+      cases evalX env a <;> cases evalX env b <;> rfl
+  | .cat a b, hw => by
+      simp only [wellFormed, Bool.and_eq_true] at hw
+      have ha := (translate_correct_aux a hw.1.1.1).1; have hb := (translate_correct_aux b hw.1.1.2).1
+      simp only [translateX, translateX.ifsTail, evalPy, evalIfs, evalX, ha, hb, strict2, opCat, and_true]
+      cases evalX env a <;> cases evalX env b <;> rfl
+  | .eq a b, hw => by
+      simp only [wellFormed, Bool.and_eq_true] at hw
+      have ha := (translate_correct_aux a hw.1.1.1).1; have hb := (translate_correct_aux b hw.1.1.2).1
+      simp only [translateX, translateX.ifsTail, evalPy, evalIfs, evalX, ha, hb, strict2, opEq, and_true]
+      cases evalX env a <;> cases evalX env b <;> rfl
+  | .sum2 a b, hw => by
+      simp only [wellFormed, Bool.and_eq_true] at hw
+      have ha := (translate_correct_aux a hw.1.1.1).1; have hb := (translate_correct_aux b hw.1.1.2).1
+      simp only [translateX, translateX.ifsTail, evalPy, evalIfs, evalX, ha, hb, strict2, opSum, and_true]
+      cases evalX env a <;> cases evalX env b <;> rfl
+  | .left a b, hw => by
+      simp only [wellFormed, Bool.and_eq_true] at hw
+      have ha := (translate_correct_aux a hw.1.1.1).1; have hb := (translate_correct_aux b hw.1.1.2).1
+      simp only [translateX, translateX.ifsTail, evalPy, evalIfs, evalX, ha, hb, strict2, opLeft, and_true]
+      cases evalX env a <;> cases evalX env b <;> rfl
+  | .if2 c t, hw => by
+      simp only [wellFormed, Bool.and_eq_true] at hw
+      have hc := (translate_correct_aux c hw.1.1.1).1; have ht := (translate_correct_aux t hw.1.1.2).1
+      simp only [translateX, translateX.ifsTail, evalPy, evalIfs, evalX, hc, ht, and_true]
+      cases evalX env c <;> simp [bind, Except.bind]
+  | .if3 c t f, hw => by
+      simp only [wellFormed, Bool.and_eq_true] at hw
+      have hc := (translate_correct_aux c hw.1.1.1.1.1).1; have ht := (translate_correct_aux t hw.1.1.1.1.2).1
+      have hf := (translate_correct_aux f hw.1.1.1.2).1
+      simp only [translateX, translateX.ifsTail, evalPy, evalIfs, evalX, hc, ht, hf, and_true]
+      cases evalX env c <;> simp [bind, Except.bind]
+  | .ifsNil, _ => by simp [translateX, translateX.ifsTail, evalPy, evalIfs, evalX]
+  | .ifsCons c v rest, hw => by
+      simp only [wellFormed, Bool.and_eq_true] at hw
+      have hc := (translate_correct_aux c hw.1.1.1.1.1).1; have hv := (translate_correct_aux v hw.1.1.1.1.2).1
+      have hr := (translate_correct_aux rest hw.1.2).2
+      have hchain := hw.2
+      have key : evalIfs errs env (.cons (translateX c) (.cons (translateX v) (translateX.ifsTail rest)))
+          = evalX env (.ifsCons c v rest) := by
+        simp only [evalIfs, evalX, hc, hv, herr]
+        cases hcv : evalX env c with
+        | error e => simp [bind, Except.bind]
+        | ok cv =>
+          simp only [bind, Except.bind]
+          by_cases h1 : isErrVal excelErrors cv = true
+          · simp [h1]
+          · simp only [h1]
+            by_cases h2 : truthy cv = true
+            · simp [h2]
+            · simp only [h2]
+              cases rest with
+              | ifsCons c' v' r' =>
+                simp only [translateX.ifsTail] at hr ⊢
+                simpa using hr
+              | ifsNil => simp [translateX.ifsTail, evalX, evalIfs]
+              | _ => simp [wellFormed.isChain] at hchain
+      exact ⟨by simpa [translateX, evalPy] using key, by simpa [translateX.ifsTail] using key⟩
+  | .iferror a b, hw => by
+      simp only [wellFormed, Bool.and_eq_true] at hw
+      have ha := (translate_correct_aux a hw.1.1.1).1; have hb := (translate_correct_aux b hw.1.1.2).1
+      simp only [translateX, translateX.ifsTail, evalPy, evalIfs, evalX, ha, hb, herr, and_true]
+      cases evalX env a with
+      | ok v => rfl
+      | error e => cases e <;> rfl
+
+end
+
+/-- **C13, full strength.**  With the error list extracted from the rendered class template: every well-formed formula
+    of the fragment, at any nesting depth, evaluates in the generated class to the value the property demands. -/
+theorem C13_main (env : Nat → Res) (e : XExpr) (hw : wellFormed e = true) :
+    evalPy errsTemplate env (translateX e) = evalX env e :=
+  (translate_correct_aux errsTemplate env (isErrVal_congr _ excel_errors_covered_template) e hw).1
+
+/-- the same for a hand-written subclass of the importable abstract class -/
+theorem C13_main_abstract (env : Nat → Res) (e : XExpr) (hw : wellFormed e = true) :
+    evalPy errsAbstract env (translateX e) = evalX env e :=
+  (translate_correct_aux errsAbstract env (isErrVal_congr _ excel_errors_covered_abstract) e hw).1
+
+/-! ### The clauses of the property, read off the specification `evalX` (what C13_main transfers to the code) -/
+
+/-- IF evaluates its condition and then only the chosen branch -/
+theorem if_lazy (env : Nat → Res) (c t f : XExpr) (cv : Val) (hc : evalX env c = .ok cv) :
+    evalX env (.if3 c t f) = if truthy cv then evalX env t else evalX env f := by
+  simp [evalX, hc]
+
+/-- … the unchosen branch may fail without consequence -/
+theorem if_unchosen_branch_irrelevant (env : Nat → Res) (c t f f' : XExpr) (cv : Val)
+    (hc : evalX env c = .ok cv) (ht : truthy cv = true) :
+    evalX env (.if3 c t f) = evalX env (.if3 c t f') := by
+  simp [evalX, hc, ht]
+
+/-- an omitted else-branch is FALSE -/
+theorem if_omitted_else (env : Nat → Res) (c t : XExpr) (cv : Val) (hc : evalX env c = .ok cv)
+    (hf : truthy cv = false) : evalX env (.if2 c t) = .ok (.bool false) := by
+  simp [evalX, hc, hf]
+
+/-- the argument list of an IFS as (condition, value) pairs -/
+def ifsOf : List (XExpr × XExpr) → XExpr
+  | [] => .ifsNil
+  | (c, v) :: ps => .ifsCons c v (ifsOf ps)
+
+theorem ifsOf_wellFormed (ps : List (XExpr × XExpr))
+    (h : ∀ p ∈ ps, wellFormed p.1 = true ∧ wellFormed p.2 = true ∧
+      wellFormed.isNil p.1 = false ∧ wellFormed.isNil p.2 = false) :
+    wellFormed (ifsOf ps) = true ∧ wellFormed.isChain (ifsOf ps) = true := by
+  induction ps with
+  | nil => simp [ifsOf, wellFormed, wellFormed.isChain]
+  | cons p ps ih =>
+    obtain ⟨c, v⟩ := p
+    have hp := h (c, v) (by simp)
+    have := ih (fun q hq => h q (by simp [hq]))
+    have hchain : wellFormed.isChain (ifsOf ps) = true := this.2
+    simp [ifsOf, wellFormed, hp.1, hp.2.1, hp.2.2.1, hp.2.2.2, this.1, hchain]
+    simp [wellFormed.isChain]
+
+/-- IFS returns the value paired with the first true condition: all earlier conditions evaluated to false
+    (non-error) values, the k-th is true; later pairs are never looked at -/
+theorem ifs_first_true (env : Nat → Res) (pre post : List (XExpr × XExpr)) (c v : XExpr) (cv : Val)
+    (hpre : ∀ p ∈ pre, ∃ pv, evalX env p.1 = .ok pv ∧ truthy pv = false ∧ isErrVal excelErrors pv = false)
+    (hc : evalX env c = .ok cv) (ht : truthy cv = true) (he : isErrVal excelErrors cv = false) :
+    evalX env (ifsOf (pre ++ (c, v) :: post)) = evalX env v := by
+  induction pre with
+  | nil => simp [ifsOf, evalX, hc, ht, he]
+  | cons p pre ih =>
+    obtain ⟨pc, pv'⟩ := p
+    obtain ⟨pv, h1, h2, h3⟩ := hpre (pc, pv') (by simp)
+    have := ih (fun q hq => hpre q (by simp [hq]))
+    simp [ifsOf, evalX, h1, h2, h3, this]
+
+/-- IFS with no true condition is #N/A -/
+theorem ifs_none_na (env : Nat → Res) (ps : List (XExpr × XExpr))
+    (h : ∀ p ∈ ps, ∃ pv, evalX env p.1 = .ok pv ∧ truthy pv = false ∧ isErrVal excelErrors pv = false) :
+    evalX env (ifsOf ps) = .ok errNA := by
+  induction ps with
+  | nil => simp [ifsOf, evalX]
+  | cons p ps ih =>
+    obtain ⟨pc, pv'⟩ := p
+    obtain ⟨pv, h1, h2, h3⟩ := h (pc, pv') (by simp)
+    have := ih (fun q hq => h q (by simp [hq]))
+    simp [ifsOf, evalX, h1, h2, h3, this]
+
+/-- IFERROR: the first argument's value when it is not an error value … -/
+theorem iferror_value (env : Nat → Res) (a b : XExpr) (v : Val) (ha : evalX env a = .ok v)
+    (hv : isErrVal excelErrors v = false) : evalX env (.iferror a b) = .ok v := by
+  simp [evalX, ha, hv]
+
+/-- … the fallback when it is one of the seven Excel error values … -/
+theorem iferror_errval (env : Nat → Res) (a b : XExpr) (s : List Char) (ha : evalX env a = .ok (.str s))
+    (hs : s ∈ excelErrors) : evalX env (.iferror a b) = evalX env b := by
+  have : isErrVal excelErrors (.str s) = true := by simpa [isErrVal] using hs
+  simp [evalX, ha, this]
+
+/-- … and the fallback when its evaluation fails (any modelled exception) -/
+theorem iferror_failure (env : Nat → Res) (a b : XExpr) (e : PyExc) (ha : evalX env a = .error e)
+    (he : e ≠ .unmodelled) : evalX env (.iferror a b) = evalX env b := by
+  cases e <;> simp_all [evalX]
+
+/-- the fallback is not evaluated when it is not needed: a failing fallback does not matter -/
+theorem iferror_fallback_lazy (env : Nat → Res) (a b b' : XExpr) (v : Val) (ha : evalX env a = .ok v)
+    (hv : isErrVal excelErrors v = false) : evalX env (.iferror a b) = evalX env (.iferror a b') := by
+  simp [evalX, ha, hv]
+
+/-! ### Non-vacuity: concrete formulas that meet the hypotheses, evaluated through the *model of the code* -/
+
+private def envEx : Nat → Res
+  | 0 => .ok (.int 1) | 1 => .ok (.int 0) | 2 => .error .zeroDiv | 3 => .ok (.str "#NULL!".toList) | _ => .ok .blank
+
+/-- =IFERROR(5,1/0) is 5;  =IFS(A1,1,A2,1/0) is 1;  =IFS(A2,1/0,A1,7) is 7;  =IFERROR(A4,9) with A4 = #NULL! is 9;
+    =1+IF(A2,1/0,IFERROR(A3,2)) is 3 -/
+example :
+    evalPy errsTemplate envEx (translateX (.iferror (.lit (.int 5)) (.div (.lit (.int 1)) (.lit (.int 0))))) = .ok (.int 5) ∧
+    evalPy errsTemplate envEx (translateX (ifsOf [(.ref 0, .lit (.int 1)), (.ref 1, .div (.lit (.int 1)) (.lit (.int 0)))])) = .ok (.int 1) ∧
+    evalPy errsTemplate envEx (translateX (ifsOf [(.ref 1, .div (.lit (.int 1)) (.lit (.int 0))), (.ref 0, .lit (.int 7))])) = .ok (.int 7) ∧
+    evalPy errsTemplate envEx (translateX (.iferror (.ref 3) (.lit (.int 9)))) = .ok (.int 9) ∧
+    evalPy errsTemplate envEx (translateX (.add (.lit (.int 1))
+      (.if3 (.ref 1) (.div (.lit (.int 1)) (.lit (.int 0))) (.iferror (.ref 2) (.lit (.int 2)))))) = .ok (.int 3) :=
+  ⟨rfl, rfl, rfl, rfl, rfl⟩
+
+example : wellFormed (.add (.lit (.int 1))
+    (.if3 (.ref 1) (.div (.lit (.int 1)) (.lit (.int 0))) (.iferror (.ref 2) (.lit (.int 2))))) = true := by decide
+
 end E2P.C13
